@@ -878,6 +878,8 @@ class Models:
         key = (tid, val)
         if spans is None and key in self._render:
             return self._render[key]
+        if tid not in self.paths:
+            raise ModelError("no printer model for %s (its Display body is outside the modelled subset)" % short(tid))
         hits = self.path_of(tid, val)
         if len(hits) != 1:
             raise ModelError("value of %s satisfies %d printer paths (expected exactly 1)" % (short(tid), len(hits)))
